@@ -164,6 +164,10 @@ func publisherBody(env *simrt.Env, flushOracle bool) {
 	env.Op("publisher ljh22=%v ljh3=%v off=%v nsamp=%d npre=%d nbases=%d subdiv=%d suboff=%d", useLJH22, useLJH3, useOFF, p.nsamp, p.npre, p.nbases, p.subdiv, p.suboff)
 
 	var want []wantRec // records accepted while unpaused
+	// LJH2.2 has fixed-size records: a record of another length (the variable-length edge-multi mode
+	// makes them) is not accepted by that format, the other two take it
+	var want22 []wantRec
+	oddLengths := simrt.Draw(3) == 0
 	// flushed checks C07's completeness clause through the publisher (only in the C07c check)
 	flushed := func(what string) {
 		if !flushOracle {
@@ -184,11 +188,20 @@ func publisherBody(env *simrt.Env, flushOracle bool) {
 				if len(want) == 0 {
 					continue // created lazily with the first record
 				}
+				nwant := len(want)
+				if f.kind == 0 {
+					nwant = len(want22)
+				}
+				_ = nwant
 				simrt.Fail("C07.flush-complete", "publisher:flush-incomplete", "%s returned, %d records were accepted, but %s does not exist", what, len(want), filepath.Base(f.path))
 			}
 			n := countWholeRecords(f.kind, b, p)
-			if n != len(want) {
-				simrt.Fail("C07.flush-complete", "publisher:flush-incomplete", "%s returned, %d records were accepted for this channel, but %s holds %d whole records (%d bytes): data accepted before the flush are not in the file", what, len(want), filepath.Base(f.path), n, len(b))
+			nwant := len(want)
+			if f.kind == 0 {
+				nwant = len(want22)
+			}
+			if n != nwant {
+				simrt.Fail("C07.flush-complete", "publisher:flush-incomplete", "%s returned, %d records were accepted for this channel, but %s holds %d whole records (%d bytes): data accepted before the flush are not in the file", what, nwant, filepath.Base(f.path), n, len(b))
 			}
 		}
 		if useLJH22 && useOFF || useLJH22 && useLJH3 {
@@ -217,11 +230,23 @@ func publisherBody(env *simrt.Env, flushOracle bool) {
 			}
 			var batch []*DataRecord
 			for j := 0; j < n; j++ {
-				r, w := genRecord(p.nsamp, p.npre, p.nbases, seq)
+				ns, np := p.nsamp, p.npre
+				if oddLengths && simrt.Draw(6) == 0 {
+					if ns = 1 + simrt.Draw(p.nsamp+2); ns != p.nsamp {
+						simrt.Hit("record-of-other-length")
+					}
+					if np >= ns {
+						np = ns - 1
+					}
+				}
+				r, w := genRecord(ns, np, p.nbases, seq)
 				seq++
 				batch = append(batch, r)
 				if !paused {
 					want = append(want, w)
+					if ns == p.nsamp {
+						want22 = append(want22, w)
+					}
 				}
 			}
 			if err := dp.PublishData(batch); err != nil {
@@ -273,7 +298,7 @@ func publisherBody(env *simrt.Env, flushOracle bool) {
 		simrt.Hit("no-record-while-active")
 	}
 	if useLJH22 {
-		checkLJH22File(f22, p, want, "Scripted")
+		checkLJH22File(f22, p, want22, "Scripted")
 	}
 	if useLJH3 {
 		checkLJH3File(f3, p, want, false)
